@@ -206,13 +206,14 @@ def tlc_ok(r, what):
 _built = {}
 
 
-def go_build(pkg="./cmd/hz", race=False, tags="verif", out=None):
-    """Build the harness binary against /repo's current working tree (replace directive)."""
-    key = (pkg, race, tags)
+def go_build(pkg="./cmd/hz", race=False, tags="verif", out=None, goarch=None):
+    """Build the harness binary against /repo's current working tree (replace directive).
+    goarch="386": the same driver for a platform whose `int` has 32 bits (runs on this machine)."""
+    key = (pkg, race, tags, goarch)
     if key in _built and os.path.exists(_built[key]):
         return _built[key]
     d = scratch("gobin")
-    outp = out or os.path.join(d, "hz" + ("-race" if race else ""))
+    outp = out or os.path.join(d, "hz" + ("-race" if race else "") + ("-" + goarch if goarch else ""))
     hdir = HARNESS
     if os.path.realpath(REPO) != "/repo":
         # rehearsal against a scratch worktree (VERIF_REPO): build a copy of the harness whose replace
@@ -231,21 +232,52 @@ def go_build(pkg="./cmd/hz", race=False, tags="verif", out=None):
     if race:
         cmd.append("-race")
     cmd.append(pkg)
-    p = subprocess.run(cmd, cwd=hdir, capture_output=True, text=True, env=GOENV, timeout=900)
+    benv = dict(GOENV)
+    if goarch:
+        benv["GOARCH"] = goarch
+        benv["CGO_ENABLED"] = "0"
+    p = subprocess.run(cmd, cwd=hdir, capture_output=True, text=True, env=benv, timeout=900)
     if p.returncode != 0:
         raise InfraError("go build failed (this is a build problem, not a verdict):\n" + (p.stdout + p.stderr)[-3000:])
     _built[key] = outp
     return outp
 
 
-def run_bin(binpath, args, stdin=None, timeout=600, env=None, cwd=None, taskset=None):
+def can_run_386(hz386):
+    """Some kernels refuse 32-bit executables; then the 32-bit passes are skipped (recorded in the evidence)."""
+    try:
+        p = subprocess.run([hz386], capture_output=True, text=True, timeout=30)
+        return "usage" in (p.stderr + p.stdout)
+    except OSError:
+        return False
+
+
+def can_drop_privileges():
+    """True when this process is root and an unprivileged account exists to run a tool under."""
+    if os.geteuid() != 0:
+        return False
+    try:
+        import pwd
+        pwd.getpwnam("nobody")
+        return True
+    except (ImportError, KeyError):
+        return False
+
+
+def run_bin(binpath, args, stdin=None, timeout=600, env=None, cwd=None, taskset=None, user=None):
     cmd = [binpath] + list(args)
     if taskset:
         cmd = ["taskset", "-c", taskset] + cmd
     e = dict(GOENV)
     e.update(env or {})
+    extra = {}
+    if user:
+        import pwd
+        pw = pwd.getpwnam(user)
+        extra = {"user": pw.pw_uid, "group": pw.pw_gid, "extra_groups": []}
+        e["HOME"] = "/tmp"
     try:
-        p = subprocess.run(cmd, input=stdin, capture_output=True, text=True, timeout=timeout, env=e, cwd=cwd)
+        p = subprocess.run(cmd, input=stdin, capture_output=True, text=True, timeout=timeout, env=e, cwd=cwd, **extra)
     except subprocess.TimeoutExpired as ex:
         class R:
             pass
